@@ -441,7 +441,7 @@ func Run(t *testing.T, cfg Config, setup func(s *Sim), script func(s *Sim)) (res
 			},
 			Dialer: func(a net.Addr) (net.Conn, error) {
 				p := byAddr[a.String()]
-				if p == nil || p.Refuse {
+				if p == nil || p.Refusing() {
 					return nil, fmt.Errorf("connection refused")
 				}
 				s.mu.Lock()
